@@ -32,7 +32,7 @@ def replay(cand):
     what = cand.get("what", "")
     obs = kernel_check.native_run(cfg, cand.get("n", 0), cand.get("bytes", []))
     if "crash" in obs:
-        return True, "native run crashed: %s" % obs["crash"][-300:], obs
+        return True, "native run crashed: %s" % obs["crash"][:500], obs
     if "sizeof" in what:
         need = 1 if cfg.ty == "Flag" else cfg.w
         return obs.get("vsize", 0) * 8 < need, "sizeof(ValueType)=%s for width %d" % (obs.get("vsize"), cfg.w), obs
